@@ -2,6 +2,7 @@ package rt
 
 import (
 	"context"
+	"encoding/json"
 	"fmt"
 	"math"
 	"net/http"
@@ -16,6 +17,29 @@ import (
 
 func init() {
 	Drivers["c02"] = func(a []string) error { return runJob(a, c02Unit) }
+}
+
+// URLCase is one raw request of the URL-binding exploration as handed to the TS half (stage "tscases").
+type URLCase struct {
+	K        string            `json:"k"`
+	ID       string            `json:"id"`
+	Unit     string            `json:"unit"`
+	Svc      string            `json:"svc"`
+	RPC      string            `json:"rpc"`
+	CellBase string            `json:"cell_base"`
+	Cell     string            `json:"cell"`
+	Kind     string            `json:"kind"` // valid | bad | unjudged
+	Label    string            `json:"label"`
+	Verb     string            `json:"verb"`
+	Target   string            `json:"target"`
+	Headers  map[string]string `json:"headers"`
+	Body     []byte            `json:"body"`
+	HasBody  bool              `json:"has_body"`
+	Loc      string            `json:"loc"`       // path | query
+	Field    string            `json:"field"`     // proto name of the slot under test
+	JSONName string            `json:"json_name"` // its JSON name
+	// Want: for valid cases the documented JSON form (explicit: defaults spelled out) of every URL-bound field of the request
+	Want json.RawMessage `json:"want,omitempty"`
 }
 
 type urlCase struct {
@@ -138,6 +162,8 @@ var _ = math.MaxInt32
 func c02Unit(j *Job, u *JobUnit) error {
 	t := newTally()
 	defer t.flush()
+	tsStage := j.Params["stage"] == "tscases"
+	caseN := 0
 	f, err := newFixture(u.Name, nil)
 	if err != nil {
 		return err
@@ -263,6 +289,54 @@ func c02Unit(j *Job, u *JobUnit) error {
 							}
 						}
 						body := bc.body(req)
+						if tsStage {
+							caseN++
+							cell := fmt.Sprintf("%s,body=%s#%s", cellBase, bc.label, strings.SplitN(uc.label, ":", 2)[0])
+							uc2 := &URLCase{K: "urlcase", ID: fmt.Sprintf("%s|%s|%s|%06d", u.Name, js.Name, m.Name, caseN), Unit: u.Name, Svc: js.Name, RPC: m.Name, CellBase: cellBase, Cell: cell,
+								Label: uc.label, Verb: m.Verb, Target: target, Headers: map[string]string{}, Body: body, HasBody: body != nil, Loc: loc, Field: sl.field, JSONName: fd.JSONName()}
+							for k, v := range hdr {
+								uc2.Headers[k] = v[0]
+							}
+							switch {
+							case uc.bad:
+								uc2.Kind = "bad"
+							case uc.want == nil:
+								uc2.Kind = "unjudged"
+							default:
+								uc2.Kind = "valid"
+								wantMsg := proto.Clone(req)
+								uc.want(wantMsg.ProtoReflect(), fd)
+								if violatesRules(wantMsg) {
+									continue
+								}
+								for i := 0; i < md.Fields().Len(); i++ {
+									if bf := md.Fields().Get(i); !urlFields[string(bf.Name())] {
+										wantMsg.ProtoReflect().Clear(bf)
+									}
+								}
+								v, err := model.Encode(wantMsg.ProtoReflect(), model.EncOpts{Explicit: true})
+								if err != nil {
+									continue
+								}
+								// only the URL-bound members: the rest of the request is the body's business
+								if vm, ok := v.(map[string]any); ok {
+									keep := map[string]bool{}
+									for n := range urlFields {
+										if ufd := md.Fields().ByName(protoName(n)); ufd != nil {
+											keep[ufd.JSONName()] = true
+										}
+									}
+									for k := range vm {
+										if !keep[k] {
+											delete(vm, k)
+										}
+									}
+								}
+								uc2.Want = model.Marshal(v)
+							}
+							Emit(uc2)
+							continue
+						}
 						f.reset()
 						ex, err := f.wire.Do(m.Verb, target, hdr, body)
 						if err != nil {
